@@ -4,14 +4,13 @@ package main
 
 import (
 	"bytes"
-	"crypto/sha256"
-	"encoding/binary"
-	"encoding/hex"
-	"errors"
+		"encoding/binary"
+		"errors"
 	"fmt"
 	"reflect"
 	"sort"
 
+	"github.com/cespare/xxhash/v2"
 	"github.com/NethermindEth/juno/blockchain"
 	"github.com/NethermindEth/juno/core"
 	"github.com/NethermindEth/juno/core/felt"
@@ -45,6 +44,7 @@ func (w *World) Head() *lib.Bundle {
 type Problem struct {
 	Sig    string
 	Detail string
+	Block  uint64 // for event-query misses: the block of the first missing event
 }
 
 type problems []Problem
@@ -57,21 +57,61 @@ func isNotFound(err error) bool { return err != nil && errors.Is(err, db.ErrKeyN
 
 func noPreConfirmed() (blockchain.PreConfirmedReader, error) { return nil, nil }
 
-// digest is a canonical hash of a whole key/value image.
-func digest(m db.KeyValueStore) string {
+// canonValue removes the one harmless non-determinism of the stored bytes: a legacy trie node
+// is written with or without two all-zero cached child hashes depending on map iteration order
+// during the update (core/trie/node.go WriteTo); both decode to the same node.
+func canonValue(k, v []byte) []byte {
+	if len(k) == 0 {
+		return v
+	}
+	switch db.Bucket(k[0]) {
+	case db.StateTrie, db.ContractStorage, db.ClassesTrie:
+		if len(v) > 32+64 && bytes.Equal(v[len(v)-64:], make([]byte, 64)) {
+			return v[:len(v)-64]
+		}
+	}
+	return v
+}
+
+// looseSkip: buckets left out of the cross-run digest. The trie2 node buckets are not a
+// function of the history alone: a revert leaves (unreachable) node garbage that depends on map
+// iteration order, so two identical fault-free runs can differ there. Their content is checked
+// through the state readers and the recomputed commitment instead.
+func looseSkip(k []byte) bool {
+	if len(k) == 0 {
+		return false
+	}
+	switch db.Bucket(k[0]) {
+	case db.ClassTrie, db.ContractTrieContract, db.ContractTrieStorage:
+		return true
+	}
+	return false
+}
+
+// digest is a canonical hash of a whole key/value image (same-run comparisons).
+func digest(m db.KeyValueStore) string { return digestOf(m, false) }
+
+// looseDigest is the digest used to compare images of different runs.
+func looseDigest(m db.KeyValueStore) string { return digestOf(m, true) }
+
+func digestOf(m db.KeyValueStore, loose bool) string {
 	it, err := m.NewIterator(nil, false)
 	if err != nil {
 		panic(err)
 	}
 	defer it.Close()
-	h := sha256.New()
+	h := xxhash.New()
 	var lenb [8]byte
 	for ok := it.First(); ok; ok = it.Next() {
 		k := it.Key()
+		if loose && looseSkip(k) {
+			continue
+		}
 		v, err := it.Value()
 		if err != nil {
 			panic(err)
 		}
+		v = canonValue(k, v)
 		binary.BigEndian.PutUint64(lenb[:], uint64(len(k)))
 		h.Write(lenb[:])
 		h.Write(k)
@@ -79,11 +119,15 @@ func digest(m db.KeyValueStore) string {
 		h.Write(lenb[:])
 		h.Write(v)
 	}
-	return hex.EncodeToString(h.Sum(nil))[:24]
+	return fmt.Sprintf("%016x", h.Sum64())
 }
 
 // diffImages names the buckets in which two images differ (for violation messages).
 func diffImages(a, b db.KeyValueStore) string {
+	return diffImagesOf(a, b, false)
+}
+
+func diffImagesOf(a, b db.KeyValueStore, loose bool) string {
 	dump := func(s db.KeyValueStore) map[string]string {
 		out := map[string]string{}
 		it, err := s.NewIterator(nil, false)
@@ -92,8 +136,11 @@ func diffImages(a, b db.KeyValueStore) string {
 		}
 		defer it.Close()
 		for ok := it.First(); ok; ok = it.Next() {
+			if loose && looseSkip(it.Key()) {
+				continue
+			}
 			v, _ := it.Value()
-			out[string(it.Key())] = string(v)
+			out[string(it.Key())] = string(canonValue(it.Key(), v))
 		}
 		return out
 	}
@@ -534,6 +581,7 @@ func checkEvents(bc *blockchain.Blockchain, w *World, qs [][2]*felt.Felt, p *pro
 			missing := firstMissing(want, got)
 			p.add("event-query-misses-events", "event query (from=%v key=%v) returned %d events, a scan of the receipts finds %d; first missing one is in block %d",
 				q[0], q[1], len(got), len(want), missing)
+			(*p)[len(*p)-1].Block = missing
 			return
 		}
 		if !reflect.DeepEqual(got, want) && len(got)+len(want) > 0 {
@@ -592,20 +640,8 @@ func checkNode(bc *blockchain.Blockchain, w *World, ghost *lib.Bundle, qs [][2]*
 	case err != nil || l1.BlockNumber != w.L1.BlockNumber || !sameFelt(l1.BlockHash, w.L1.BlockHash) || !sameFelt(l1.StateRoot, w.L1.StateRoot):
 		p.add("l1-head-differs", "L1Head() = %+v, %v; expected block %d", l1, err, w.L1.BlockNumber)
 	}
-	if w.Floor > 0 {
-		if o, err := pruner.OldestRetainedBlock(imageReader{bc}); err == nil && o != w.Floor {
-			_ = o // the floor is checked by the caller on the raw store
-		}
-	}
 	return p
 }
-
-// imageReader is a placeholder so that checkNode's signature stays independent of the raw store.
-type imageReader struct{ bc *blockchain.Blockchain }
-
-func (imageReader) Has([]byte) (bool, error)                        { return false, db.ErrKeyNotFound }
-func (imageReader) Get([]byte, func([]byte) error) error            { return db.ErrKeyNotFound }
-func (imageReader) NewIterator([]byte, bool) (db.Iterator, error)   { return nil, db.ErrKeyNotFound }
 
 // storeProbe offers the world's probe block to a node and checks that it became the head.
 func storeProbe(bc *blockchain.Blockchain, w *World, p *problems, sigPrefix string) {
@@ -631,28 +667,6 @@ func storeProbe(bc *blockchain.Blockchain, w *World, p *problems, sigPrefix stri
 	for _, x := range q {
 		p.add(sigPrefix+"next-block-"+x.Sig, "%s", x.Detail)
 	}
-}
-
-// filterObs is what can be observed of a running event filter.
-type filterObs struct {
-	From, Next uint64
-	Bits       string // digest of the window's bit matrix
-	Err        string
-}
-
-func observeFilter(rf *core.RunningEventFilter) filterObs {
-	from, err := rf.FromBlock()
-	if err != nil {
-		return filterObs{Err: err.Error()}
-	}
-	next, _ := rf.NextBlock()
-	inner, _ := rf.InnerFilter()
-	raw, err := inner.MarshalBinary()
-	if err != nil {
-		return filterObs{Err: err.Error()}
-	}
-	s := sha256.Sum256(raw)
-	return filterObs{From: from, Next: next, Bits: hex.EncodeToString(s[:8])}
 }
 
 // restartFilter is what a new process would hold after initialising from this image.
